@@ -13,7 +13,7 @@ pub mod utils;
 #[cfg(feature = "verif-hooks")]
 pub mod verif_hooks {
     pub use super::output_snps::create_fasta_and_vcf;
-    pub use super::process_indels::verif_hooks::extract_middle_bases;
+    pub use super::process_indels::verif_hooks::{dereplicate_indels, extract_middle_bases};
     pub use super::process_variants::check_missing_data;
     pub use super::process_variants::verif_hooks::{complement_snp, get_potential_snp};
 }
